@@ -171,6 +171,9 @@ type an struct {
 	writes   []writeRec
 	extCalls []extCallRec
 	once     map[*ssa.Function][]onceInfo
+	// who calls a function (nil = a root of the analysis): a function that is only ever called from functions running
+	// under one sync.Once (a helper split out of the Do closure, the method behind a method value given to Do) runs under it
+	callersOf map[*ssa.Function]map[*ssa.Function]bool
 	edgesCG  map[[2]string]bool
 	handed   map[string]bool
 	curWhy   string
@@ -181,7 +184,7 @@ type an struct {
 func newAn(prog *ssa.Program, modPath string) *an {
 	a := &an{prog: prog, modPath: modPath, vals: map[vkey]*nd{}, cells: map[ckey]*nd{}, rets: map[rkey]*nd{},
 		insts: map[ikey]bool{}, objs: map[okey]*object{}, tagTypes: map[string]types.Type{}, done: map[string]bool{},
-		once: map[*ssa.Function][]onceInfo{}, ctxIds: map[string]int{}, edgesCG: map[[2]string]bool{}, handed: map[string]bool{}}
+		once: map[*ssa.Function][]onceInfo{}, callersOf: map[*ssa.Function]map[*ssa.Function]bool{}, ctxIds: map[string]int{}, edgesCG: map[[2]string]bool{}, handed: map[string]bool{}}
 	a.ext = a.newObj(okey{"EXT", -1, ""}, kExt, -1, nil, "EXT (application-supplied or library-made during set-up, shared)")
 	a.extReq = a.newObj(okey{"EXTREQ", -1, ""}, kExtReq, phServe, nil, "EXTREQ (the request's own http.ResponseWriter/*http.Request, net/http Handler contract)")
 	a.extServe = a.newObj(okey{"EXTSERVE", -1, ""}, kExt, -1, nil, "EXTSERVE (result of a library/application call made while serving; provenance unknown)")
